@@ -181,6 +181,41 @@ def r08_3(facts, res):
         if not ok:
             res.add(Finding("R08-3", "//:%s" % path.split("::")[-1], "%s: '//' must expand with the function of descendant-or-self:: (%s)" % (path, dos),
                             g["file"], g["line"], {}))
+    # '/x' and '//x' start from the same node(s): in every match over the path operator the DescendantOrSelfNode arm applies
+    # descendant-or-self to exactly what the Current arm starts from (a leading '//' starts at the root, like a leading '/')
+    g = facts.fn("xml_xpath::eval::eval_filtered_loc_expr")
+    for mi, n in enumerate(sorted([x for x in walk(g["body"]) if x.get("k") == "Match" and "LocationPathOperator" in str(x.get("scrutty", ""))],
+                                  key=lambda x: x.get("ln") or 0)):
+        arms = {}
+        for arm in n["arms"]:
+            for v in variants_of_pat(arm["pat"]):
+                arms[v] = arm
+        if "Current" not in arms or "DescendantOrSelfNode" not in arms:
+            continue
+        st["instances"] += 1
+
+        def outer_locals(body):
+            inner = set()
+            for c in walk(body):
+                if c.get("k") == "Closure":
+                    for q in walk(c.get("params", [])):
+                        if q.get("p") == "Bind":
+                            inner.add(q.get("lid"))
+                for q in walk(c.get("pat", {})) if c.get("s") == "Let" else []:
+                    if q.get("p") == "Bind":
+                        inner.add(q.get("lid"))
+            return {m.get("name") for m in walk(body) if m.get("k") == "Path" and m.get("res") == "Local" and m.get("lid") not in inner}
+
+        def conversions(body):
+            return sorted({m["m"] for m in walk(body) if m.get("k") == "MethodCall" and m["m"] in ("owner_document", "parent_node", "document_element")})
+        lc, ld = outer_locals(arms["Current"]["body"]), outer_locals(arms["DescendantOrSelfNode"]["body"])
+        cc, cd = conversions(arms["Current"]["body"]), conversions(arms["DescendantOrSelfNode"]["body"])
+        ok = bool(ld) and ld <= lc | ld and (lc & ld) and cc == cd
+        res.oblige(1, bool(ok))
+        if not ok:
+            res.add(Finding("R08-3", "//:start:match%d" % (mi + 1), "%s: the arm for '/' starts from %s%s, the arm for '//' from %s%s - '//x' must be "
+                            "'/descendant-or-self::node()/x' from the same starting point" % (g["path"], sorted(lc), cc or "", sorted(ld), cd or ""),
+                            g["file"], n.get("ln"), {}))
     # '.' = self::node(), '..' = parent::node()
     g = facts.fn("xml_xpath::eval::eval_step_expr")
     arms = match_arms_on(g, "model::Step")
